@@ -7,7 +7,8 @@ import thermogen
 from props import c01
 from vlib import g_list, g_Q, g_str
 
-COQ_DEPS = ['Thermo/Corr.vo']
+COQ_DEPS = ['Thermo/Corr.vo', 'Lib/Psd_cert.vo']
+GEN = ['uq']
 
 HEADER = '''From Coq Require Import List NArith Bool QArith Qabs.
 From PG Require Import Common.Strs Thermo.Num Thermo.Estimate Thermo.Corr.
